@@ -1,7 +1,7 @@
 (* Property C08 - only statements, each closed by [exact]. *)
-From Coq Require Import NArith List Bool Sorting.Sorted Permutation.
+From Coq Require Import NArith ZArith List Bool Floats Sorting.Sorted Permutation.
 Import ListNotations.
-Require Import UV.C08.Model UV.C08.Proofs UV.C08.Figures UV.C08.Open UV.C08.Order UV.C08.Checker UV.C08.OpenSpec UV.C08.SortChecker UV.C08.Merge UV.C08.Lost UV.C08.LostSpec UV.C08.Inherit UV.C08.SelfDiff.
+Require Import UV.C08.Model UV.C08.Proofs UV.C08.Figures UV.C08.Open UV.C08.Order UV.C08.Checker UV.C08.OpenSpec UV.C08.SortChecker UV.C08.Merge UV.C08.Lost UV.C08.LostSpec UV.C08.Inherit UV.C08.SelfDiff UV.C08.Stdv UV.C08.StdvFacts UV.C08.TaskMode.
 Local Open Scope N_scope.
 
 (* The accumulation automaton of fstack_account_time + report_update_node (uint64 arithmetic, clamp
@@ -156,6 +156,15 @@ Theorem C08_stdout_checker_accepts_model : forall m s f c, small_figures (report
 Proof. exact (fun m s f c H => stdout_checker_accepts_model _ _ (report c) (report_names_sorted c) H). Qed.
 Print Assumptions C08_stdout_checker_accepts_model.
 
+(* report --task: for a good task (inherited frames included, see C08_inherited_task) the task's line shows the summed
+   duration of its top-level calls (Total = Self) and the number of counted calls. *)
+Theorem C08_task_line : forall max_stack tt,
+  good_task max_stack tt ->
+  sumN (map w_self (spec_task tt)) < M64 ->
+  task_line max_stack (trace_recs tt) = (top_time tt, N.of_nat (length (spec_task tt))).
+Proof. exact task_line_good. Qed.
+Print Assumptions C08_task_line.
+
 (* LOST markers.  Any record list whose depth fields agree with the nesting (walk: ENTRY at depth n, EXIT at
    n-1, nesting below max_stack; markers anywhere, any number in a row, also first - i.e. the dropped records
    were complete calls), first record with depth field 0, last record not a marker: the counted rows are exactly
@@ -243,6 +252,15 @@ Theorem C08_task_mode_open_legacy_refuted :
 Proof. exact task_mode_open_legacy_refuted. Qed.
 Print Assumptions C08_task_mode_open_legacy_refuted.
 
+(* ... and the frames a forked child inherits and never returns from were skipped (fix 4ec4e50) *)
+Theorem C08_task_mode_inherited_legacy_refuted :
+  let child := [mkrec EXIT 1 30 1310; mkrec ENTRY 1 20 1400; mkrec EXIT 1 20 1500; mkrec ENTRY 1 20 1600;
+                mkrec EXIT 1 20 1650] in
+  task_line_legacy 1024 child = (150, 3) /\ task_line 1024 child = (340, 4)
+  /\ sumN (map w_self (task_rows 1024 child)) = 340.
+Proof. exact task_mode_inherited_legacy_refuted. Qed.
+Print Assumptions C08_task_mode_inherited_legacy_refuted.
+
 (* report --diff (no colours): the sign of a time difference was inverted; now "-" means a decrease *)
 Theorem C08_diff_sign_legacy_refuted :
   show_dtime_legacy 100 300 = Some (true, 0, 200, 0) /\ show_dtime_legacy 300 100 = Some (false, 0, 200, 0)
@@ -264,3 +282,37 @@ Theorem C08_lost_after_inherited_legacy_refuted :
   /\ (exists n, find_node (report lost_case) 2 = Some n /\ smax (n_total n) = 1).
 Proof. exact lost_after_inherited_legacy_refuted. Qed.
 Print Assumptions C08_lost_after_inherited_legacy_refuted.
+
+(* The stdv column (model: Stdv.v, the machine's binary64 arithmetic).  Before the fixes 5fe3294, b241d75, a863f9f:
+   sigma/sqrt(calls)/mean instead of the documented sigma/mean (35.36 % for calls of 100 and 300 ns; now 50.00 %), *)
+Theorem C08_stdv_formula_legacy_refuted :
+  hundredths (stdv_legacy (100 * 100 + 300 * 300) 0 200 2) = Some 3536%Z
+  /\ hundredths (stdv_of (sq 100 + sq 300) 0 400 2) = Some 5000%Z
+  /\ ok_stdv 5000 [100; 300]%N = true /\ ok_stdv 3536 [100; 300]%N = false.
+Proof. exact stdv_formula_legacy_refuted. Qed.
+Print Assumptions C08_stdv_formula_legacy_refuted.
+
+(* squares wrapping at 2^64 from 4.29 s on (NaN for calls of 5 s and 6 s; now 9.09 %), *)
+Theorem C08_stdv_overflow_legacy_refuted :
+  let a := 5000000000%N in let b := 6000000000%N in
+  is_nan (stdv_legacy (add64 ((a * a) mod M64) ((b * b) mod M64)) 0 5500000000 2) = true
+  /\ hundredths (stdv_of (sq a + sq b) 0 (a + b) 2) = Some 909%Z
+  /\ ok_stdv 909 [a; b] = true.
+Proof. exact stdv_overflow_legacy_refuted. Qed.
+Print Assumptions C08_stdv_overflow_legacy_refuted.
+
+(* and 0/0 = NaN for a function whose calls all took 0 ns (now 0.00 %). *)
+Theorem C08_stdv_zero_mean_legacy_refuted :
+  is_nan (stdv_legacy 0 0 0 3) = true /\ hundredths (stdv_of 0 0 0 3) = Some 0%Z /\ ok_stdv 0 [0; 0; 0]%N = true.
+Proof. exact stdv_zero_mean_legacy_refuted. Qed.
+Print Assumptions C08_stdv_zero_mean_legacy_refuted.
+
+(* ------------------------------------------------------------------------------------------------
+   Still present in the code (known finding lost-in-inherited-data): outside the guards of C08_lost_markers_*
+   (data starts at depth 0) and C08_inherited_* (no LOST marker): a marker in the data of a forked child counts
+   the innermost open call twice (leaf: Calls 2, Total 2 ns instead of 1 and 300 ns) *)
+Theorem C08_lost_in_inherited_refuted :
+  map (fun n => (n_name n, n_call n, sum (n_total n), sum (n_self n))) (report lost_inherited_case)
+  = [(1, 1, 690, 190); (2, 1, 500, 498); (3, 2, 2, 2); (4, 1, 0, 0)].
+Proof. exact lost_in_inherited_refuted. Qed.
+Print Assumptions C08_lost_in_inherited_refuted.
